@@ -91,6 +91,12 @@ def parse_output(path, res: TLCResult, keep_exports=True):
             if m:
                 res.generated, res.distinct = int(m.group(1)), int(m.group(2))
                 continue
+            m = re.match(r"Progress: (\d+) states checked, (\d+) traces generated", ln)
+            if m:      # simulation mode
+                res.generated = max(res.generated, int(m.group(1)))
+                res.distinct = max(res.distinct, int(m.group(1)))
+                res.traces = int(m.group(2))
+                continue
             m = re.match(r"The depth of the complete state graph search is (\d+)", ln)
             if m:
                 res.depth = int(m.group(1))
